@@ -118,12 +118,12 @@ theorem translateIndexed_offset {o : Operand} {r : InstrRow} {c i : Nat} {h : Op
 
 theorem translateExtInd_offset {o : Operand} {r : InstrRow} {c i : Nat} {h : Option Nat} {m : Mode} {neg : Bool}
     {right : Str} (hc : r.ind = some c) (h0 : c ≠ 0) (hc' : c < 65536) (hna : o.value.isAddress = false)
-    (hnn : o.value.isNumeric = false)
+    (hne : o.value.isAddrExpr = false) (hnn : o.value.isNumeric = false)
     (hl : o.left = .val (.numeric i h m neg)) (hi : i ≠ 0) (hr : o.right = some right)
     (hvr : validIndexReg right = true) :
     translateExtIndirect o r = translateOffset true r (.numeric i h m neg) right (0x80 ||| regBits right) := by
   obtain ⟨j, rfl⟩ : ∃ j, i = j + 1 := ⟨i - 1, by omega⟩
-  simp [translateExtIndirect, hc, h0, hl, hr, opVal_ok hc', hna, hnn, hvr]
+  simp [translateExtIndirect, hc, h0, hl, hr, opVal_ok hc', hna, hne, hnn, hvr]
   rfl
 
 /-! ### the four index registers -/
@@ -298,7 +298,7 @@ theorem enc_off_neg16 (hk : o.kind = .indexed) (hc : r.ind = some c) (hlk : look
 
 /-- `[n,R]` with an 8-bit non-negative offset -/
 theorem enc_ind_pos8 (hk : o.kind = .extIndirect) (hc : r.ind = some c) (hlk : lookup c = some (opOf r.mnemonic, .idx))
-    (hs : r.indSz = opcodeLen c + 1) (hna : o.value.isAddress = false) (hnn : o.value.isNumeric = false)
+    (hs : r.indSz = opcodeLen c + 1) (hna : o.value.isAddress = false) (hne : o.value.isAddrExpr = false) (hnn : o.value.isNumeric = false)
     (hl : o.left = .val (.numeric i h m false)) (h1 : 1 ≤ i) (h2 : i ≤ 127)
     (hk4 : k < 4) (hr : o.right = some (regName k)) :
     Encodes o r (.idx (.off k i true 8)) := by
@@ -306,7 +306,7 @@ theorem enc_ind_pos8 (hk : o.kind = .extIndirect) (hc : r.ind = some c) (hlk : l
   have hp : (0x80 ||| regBits (regName k)) ||| ((if true = true then 0x90 else 0x80) + 0x08) = 128 + 32 * k + 24 := by
     rw [regBits_regName k hk4]; exact or_high' k hk4 24 (by omega)
   have ht : translateOperand o r = translateExtIndirect o r := by simp [translateOperand, hk]
-  rw [translateExtInd_offset hc h0 (cell_lt hlk) hna hnn hl (by omega) hr (regName_valid k),
+  rw [translateExtInd_offset hc h0 (cell_lt hlk) hna hne hnn hl (by omega) hr (regName_valid k),
     translateOffset_pos8 hc (cell_lt hlk) (regName_plain k hk4) (Or.inl rfl) h2 (by rw [hp]; omega), hp] at ht
   have hf : fitsByte i false = true := by simp [fitsByte]; omega
   refine enc_idx_fit (ad := [byteField i false]) hpr hsp hlk ht rfl rfl rfl (by omega) rfl (.byte hf) (by simp [hs]) ?_
@@ -315,7 +315,7 @@ theorem enc_ind_pos8 (hk : o.kind = .extIndirect) (hc : r.ind = some c) (hlk : l
 
 /-- `[-n,R]`, 1 ≤ n ≤ 128 (there is no 5-bit indirect form) -/
 theorem enc_ind_neg8 (hk : o.kind = .extIndirect) (hc : r.ind = some c) (hlk : lookup c = some (opOf r.mnemonic, .idx))
-    (hs : r.indSz = opcodeLen c + 1) (hna : o.value.isAddress = false) (hnn : o.value.isNumeric = false)
+    (hs : r.indSz = opcodeLen c + 1) (hna : o.value.isAddress = false) (hne : o.value.isAddrExpr = false) (hnn : o.value.isNumeric = false)
     (hl : o.left = .val (.numeric i h m true)) (h1 : 1 ≤ i) (h2 : i ≤ 128)
     (hk4 : k < 4) (hr : o.right = some (regName k)) :
     Encodes o r (.idx (.off k (-(i : Int)) true 8)) := by
@@ -323,7 +323,7 @@ theorem enc_ind_neg8 (hk : o.kind = .extIndirect) (hc : r.ind = some c) (hlk : l
   have hp : (0x80 ||| regBits (regName k)) ||| ((if true = true then 0x90 else 0x80) + 0x08) = 128 + 32 * k + 24 := by
     rw [regBits_regName k hk4]; exact or_high' k hk4 24 (by omega)
   have ht : translateOperand o r = translateExtIndirect o r := by simp [translateOperand, hk]
-  rw [translateExtInd_offset hc h0 (cell_lt hlk) hna hnn hl (by omega) hr (regName_valid k),
+  rw [translateExtInd_offset hc h0 (cell_lt hlk) hna hne hnn hl (by omega) hr (regName_valid k),
     translateOffset_neg8 hc (cell_lt hlk) (regName_plain k hk4) (Or.inl rfl) h1 h2 (by rw [hp]; omega), hp] at ht
   have hf : fitsByte (0x100 - i) false = true := by simp [fitsByte]; omega
   refine enc_idx_fit (ad := [byteField (0x100 - i) false]) hpr hsp hlk ht rfl rfl rfl (by omega) rfl (.byte hf) (by simp [hs]) ?_
@@ -332,7 +332,7 @@ theorem enc_ind_neg8 (hk : o.kind = .extIndirect) (hc : r.ind = some c) (hlk : l
 
 /-- `[n,R]` with a 16-bit non-negative offset -/
 theorem enc_ind_pos16 (hk : o.kind = .extIndirect) (hc : r.ind = some c) (hlk : lookup c = some (opOf r.mnemonic, .idx))
-    (hs : r.indSz = opcodeLen c + 1) (hna : o.value.isAddress = false) (hnn : o.value.isNumeric = false)
+    (hs : r.indSz = opcodeLen c + 1) (hna : o.value.isAddress = false) (hne : o.value.isAddrExpr = false) (hnn : o.value.isNumeric = false)
     (hl : o.left = .val (.numeric i h m false)) (h1 : 128 ≤ i) (h2 : i < 65536)
     (hk4 : k < 4) (hr : o.right = some (regName k)) :
     Encodes o r (.idx (.off k (sext i 16) true 16)) := by
@@ -340,7 +340,7 @@ theorem enc_ind_pos16 (hk : o.kind = .extIndirect) (hc : r.ind = some c) (hlk : 
   have hp : (0x80 ||| regBits (regName k)) ||| ((if true = true then 0x90 else 0x80) + 0x09) = 128 + 32 * k + 25 := by
     rw [regBits_regName k hk4]; exact or_high' k hk4 25 (by omega)
   have ht : translateOperand o r = translateExtIndirect o r := by simp [translateOperand, hk]
-  rw [translateExtInd_offset hc h0 (cell_lt hlk) hna hnn hl (by omega) hr (regName_valid k),
+  rw [translateExtInd_offset hc h0 (cell_lt hlk) hna hne hnn hl (by omega) hr (regName_valid k),
     translateOffset_pos16 hc (cell_lt hlk) (regName_plain k hk4) h1 h2 (by rw [hp]; omega), hp] at ht
   have hf : fitsWord i false = true := by simp [fitsWord]; omega
   refine enc_idx_fit (ad := [wordField i false / 256, wordField i false % 256]) hpr hsp hlk ht rfl rfl rfl (by omega) rfl
@@ -350,7 +350,7 @@ theorem enc_ind_pos16 (hk : o.kind = .extIndirect) (hc : r.ind = some c) (hlk : 
 
 /-- `[-n,R]`, 129 ≤ n ≤ 32768 -/
 theorem enc_ind_neg16 (hk : o.kind = .extIndirect) (hc : r.ind = some c) (hlk : lookup c = some (opOf r.mnemonic, .idx))
-    (hs : r.indSz = opcodeLen c + 1) (hna : o.value.isAddress = false) (hnn : o.value.isNumeric = false)
+    (hs : r.indSz = opcodeLen c + 1) (hna : o.value.isAddress = false) (hne : o.value.isAddrExpr = false) (hnn : o.value.isNumeric = false)
     (hl : o.left = .val (.numeric i h m true)) (h1 : 129 ≤ i) (h2 : i ≤ 32768)
     (hk4 : k < 4) (hr : o.right = some (regName k)) :
     Encodes o r (.idx (.off k (-(i : Int)) true 16)) := by
@@ -358,7 +358,7 @@ theorem enc_ind_neg16 (hk : o.kind = .extIndirect) (hc : r.ind = some c) (hlk : 
   have hp : (0x80 ||| regBits (regName k)) ||| ((if true = true then 0x90 else 0x80) + 0x09) = 128 + 32 * k + 25 := by
     rw [regBits_regName k hk4]; exact or_high' k hk4 25 (by omega)
   have ht : translateOperand o r = translateExtIndirect o r := by simp [translateOperand, hk]
-  rw [translateExtInd_offset hc h0 (cell_lt hlk) hna hnn hl (by omega) hr (regName_valid k),
+  rw [translateExtInd_offset hc h0 (cell_lt hlk) hna hne hnn hl (by omega) hr (regName_valid k),
     translateOffset_neg16 hc (cell_lt hlk) (regName_plain k hk4) h1 h2 (by rw [hp]; omega), hp] at ht
   have hf : fitsWord (0x10000 - i) false = true := by simp [fitsWord]; omega
   refine enc_idx_fit (ad := [wordField (0x10000 - i) false / 256, wordField (0x10000 - i) false % 256]) hpr hsp hlk ht
@@ -424,13 +424,13 @@ theorem translateIndexed_pcr {o : Operand} {r : InstrRow} {c i : Nat} {h : Optio
 
 theorem translateExtInd_pcr {o : Operand} {r : InstrRow} {c i : Nat} {h : Option Nat} {m : Mode} {neg : Bool}
     (hc : r.ind = some c) (h0 : c ≠ 0) (hc' : c < 65536) (hna : o.value.isAddress = false)
-    (hnn : o.value.isNumeric = false)
+    (hne : o.value.isAddrExpr = false) (hnn : o.value.isNumeric = false)
     (hl : o.left = .val (.numeric i h m neg)) (hr : o.right = some (str "PCR")) :
     translateExtIndirect o r = translateOffset true r (.numeric i h m neg) (str "PCR") 0x80 := by
   have hv : validIndexReg (str "PCR") = true := by decide
   have hpcr : hasSub (str "PCR") (str "PCR") = true := by decide
   have hrb : regBits (str "PCR") = 0 := by decide
-  cases i <;> simp [translateExtIndirect, hc, h0, hl, hr, opVal_ok hc', hna, hnn, hv, hpcr, hrb] <;> rfl
+  cases i <;> simp [translateExtIndirect, hc, h0, hl, hr, opVal_ok hc', hna, hne, hnn, hv, hpcr, hrb] <;> rfl
 
 /-- the decoder on a PC-relative post byte (`$8C`/`$9C`: 8-bit, `$8D`/`$9D`: 16-bit) -/
 theorem decode_pcr8 (ind : Bool) (b : Nat) (rest : Bytes) :
@@ -465,7 +465,7 @@ include hpr hsp
 
 /-- `n,PCR` (`ind = false`, an IndexedOperand) and `[n,PCR]` (`ind = true`, bracketed), 8-bit form: the literal is not
 spelt in extended mode and −128 ≤ n ≤ 127 -/
-theorem enc_pcr8 (ind : Bool) (hk : if ind then o.kind = .extIndirect ∧ o.value.isAddress = false ∧ o.value.isNumeric = false
+theorem enc_pcr8 (ind : Bool) (hk : if ind then o.kind = .extIndirect ∧ o.value.isAddress = false ∧ o.value.isAddrExpr = false ∧ o.value.isNumeric = false
       else o.kind = .indexed)
     (hc : r.ind = some c) (hlk : lookup c = some (opOf r.mnemonic, .idx))
     (hs : r.indSz = opcodeLen c + 1) (hl : o.left = .val (.numeric i h m neg)) (hr : o.right = some (str "PCR"))
@@ -481,7 +481,7 @@ theorem enc_pcr8 (ind : Bool) (hk : if ind then o.kind = .extIndirect ∧ o.valu
       exact translateIndexed_pcr hc h0 (cell_lt hlk) hl hr
     · simp only [if_true] at hk ⊢
       simp only [translateOperand, hk.1]
-      exact translateExtInd_pcr hc h0 (cell_lt hlk) hk.2.1 hk.2.2 hl hr
+      exact translateExtInd_pcr hc h0 (cell_lt hlk) hk.2.1 hk.2.2.1 hk.2.2.2 hl hr
   have hp : (if ind then 0x80 else 0) ||| ((if ind then 0x90 else 0x80) + (if pcrWide i m neg then 0x0D else 0x0C)) =
       (if ind then 0x90 else 0x80) + 0x0C := by rw [hw]; cases ind <;> decide
   rw [translateOffset_pcr hc (cell_lt hlk) (by rw [hp]; cases ind <;> decide), hp] at ht
@@ -492,7 +492,7 @@ theorem enc_pcr8 (ind : Bool) (hk : if ind then o.kind = .extIndirect ∧ o.valu
   simp
 
 /-- 16-bit form: the literal is spelt in extended mode, or n is outside −128..127 (−32768 ≤ n ≤ 65535) -/
-theorem enc_pcr16 (ind : Bool) (hk : if ind then o.kind = .extIndirect ∧ o.value.isAddress = false ∧ o.value.isNumeric = false
+theorem enc_pcr16 (ind : Bool) (hk : if ind then o.kind = .extIndirect ∧ o.value.isAddress = false ∧ o.value.isAddrExpr = false ∧ o.value.isNumeric = false
       else o.kind = .indexed)
     (hc : r.ind = some c) (hlk : lookup c = some (opOf r.mnemonic, .idx))
     (hs : r.indSz = opcodeLen c + 1) (hl : o.left = .val (.numeric i h m neg)) (hr : o.right = some (str "PCR"))
@@ -506,7 +506,7 @@ theorem enc_pcr16 (ind : Bool) (hk : if ind then o.kind = .extIndirect ∧ o.val
       exact translateIndexed_pcr hc h0 (cell_lt hlk) hl hr
     · simp only [if_true] at hk ⊢
       simp only [translateOperand, hk.1]
-      exact translateExtInd_pcr hc h0 (cell_lt hlk) hk.2.1 hk.2.2 hl hr
+      exact translateExtInd_pcr hc h0 (cell_lt hlk) hk.2.1 hk.2.2.1 hk.2.2.2 hl hr
   have hp : (if ind then 0x80 else 0) ||| ((if ind then 0x90 else 0x80) + (if pcrWide i m neg then 0x0D else 0x0C)) =
       (if ind then 0x90 else 0x80) + 0x0D := by rw [hw]; cases ind <;> decide
   rw [translateOffset_pcr hc (cell_lt hlk) (by rw [hp]; cases ind <;> decide), hp] at ht
